@@ -4,9 +4,10 @@
  * what chunk_info_equals / enqueue_block / load_frag_block later find in the
  * processor (frag_equal.c MODE 0 requires file, uncmp and table present).
  *
- * Every allocation / constructor may fail; workers <= 2 (loop over the pool's
- * worker count, unwound). Shape: HAVE_FILE, HAVE_UNCMP (what the caller
- * supplied).
+ * Every allocation / constructor may fail (FAIL_AT: the k-th fallible call
+ * fails, enumerated by the driver over every position); WORKERS <= 2 (loop over
+ * the pool's worker count, unwound). Shape: HAVE_FILE, HAVE_UNCMP (what the
+ * caller supplied).
  *
  *  ensures  C08.create.compare_enabled  success ==> byte comparison is enabled
  *              exactly when the caller supplied both objects:
@@ -36,6 +37,12 @@
 #ifndef BS
 #define BS 4096
 #endif
+#ifndef FAIL_AT
+#define FAIL_AT 0
+#endif
+#ifndef WORKERS
+#define WORKERS 2
+#endif
 
 static void c08_free(void *p);
 #define free c08_free
@@ -61,9 +68,17 @@ static bool g_ht_created, g_ht_destroyed, g_pool_created, g_pool_destroyed;
 static bool g_uncmp_copied;
 static void *g_worker_ptr[2];
 
+/* Fault injection is a driver case split (FAIL_AT = which fallible call fails,
+ * 0 = none): a symbolic early exit in a stub makes the returned pointer an
+ * if-then-else term, after which no list walk of the destroy path is decided
+ * concretely any more (measured: no result in 5 min). */
+static unsigned g_fallible_calls;
+
 static bool nd_fail(const char *tag)
 {
-	if (verif_nd_bool(tag)) {
+	(void)tag;
+	g_fallible_calls += 1;
+	if (g_fallible_calls == FAIL_AT) {
 		g_faults += 1;
 		return true;
 	}
@@ -92,6 +107,49 @@ sqfs_object_t *stub_cmp_copy(const sqfs_object_t *orig)
 	return (sqfs_object_t *)c;
 }
 
+/* calloc semantics, field by field (a byte-wise memset leaves the pointer
+ * fields opaque to constant propagation: every list walk of the destroy path
+ * would be unwound to the bound on every failure path) */
+static void zero_proc(sqfs_block_processor_t *p)
+{
+	p->obj.refcount = 0;
+	p->obj.destroy = NULL;
+	p->obj.copy = NULL;
+	p->frag_tbl = NULL;
+	p->frag_block = NULL;
+	p->wr = NULL;
+	p->stats.size = 0;
+	p->stats.input_bytes_read = 0;
+	p->stats.output_bytes_generated = 0;
+	p->stats.data_block_count = 0;
+	p->stats.frag_block_count = 0;
+	p->stats.sparse_block_count = 0;
+	p->stats.total_frag_count = 0;
+	p->stats.actual_frag_count = 0;
+	p->inode = NULL;
+	p->blk_current = NULL;
+	p->blk_flags = 0;
+	p->blk_index = 0;
+	p->user = NULL;
+	p->frag_ht = NULL;
+	p->free_list = NULL;
+	p->max_block_size = 0;
+	p->max_backlog = 0;
+	p->backlog = 0;
+	p->begin_called = false;
+	p->file = NULL;
+	p->uncmp = NULL;
+	p->pool = NULL;
+	p->workers = NULL;
+	p->io_queue = NULL;
+	p->io_seq_num = 0;
+	p->io_deq_seq_num = 0;
+	p->current_frag = NULL;
+	p->cached_frag_blk = NULL;
+	p->fblk_in_flight = NULL;
+	p->fblk_lookup_error = 0;
+}
+
 void *alloc_flex(size_t base_size, size_t item_size, size_t nmemb)
 {
 	VERIF_ASSERT(item_size == 1 && nmemb <= BS, "C08.create.env_pre");
@@ -101,17 +159,21 @@ void *alloc_flex(size_t base_size, size_t item_size, size_t nmemb)
 		VERIF_ASSERT(g_proc_allocs == 0, "C08.create.env_pre");
 		g_proc_allocs += 1;
 		g_proc_nmemb = nmemb;
-		memset(&g_p.proc, 0, sizeof(g_p.proc));	/* calloc */
+		zero_proc(&g_p.proc);	/* calloc */
 		return &g_p.proc;
 	}
 	VERIF_ASSERT(base_size == sizeof(worker_data_t) && g_worker_allocs < 2,
 		     "C08.create.env_pre");
 	g_worker_nmemb[g_worker_allocs] = nmemb;
 	if (g_worker_allocs++ == 0) {
-		memset(&g_w0.w, 0, sizeof(g_w0.w));
+		g_w0.w.next = NULL;
+		g_w0.w.cmp = NULL;
+		g_w0.w.scratch_size = 0;
 		return &g_w0.w;
 	}
-	memset(&g_w1.w, 0, sizeof(g_w1.w));
+	g_w1.w.next = NULL;
+	g_w1.w.cmp = NULL;
+	g_w1.w.scratch_size = 0;
 	return &g_w1.w;
 }
 
@@ -223,8 +285,8 @@ void harness(void)
 	g_ht_created = g_ht_destroyed = g_pool_created = g_pool_destroyed = false;
 	g_uncmp_copied = false;
 	g_worker_ptr[0] = g_worker_ptr[1] = NULL;
-	g_worker_count = verif_nd_size("worker_count");
-	VERIF_ASSUME(g_worker_count >= 1 && g_worker_count <= 2);
+	g_worker_count = WORKERS;
+	g_fallible_calls = 0;
 
 	mk(&g_file, NULL);
 	mk(&g_cmp, stub_cmp_copy);
@@ -280,8 +342,11 @@ void harness(void)
 		VERIF_ASSERT(p->max_backlog >= 3, "C08.create.workers");
 	}
 
-	VERIF_COVER(ret == 0 && g_worker_count == 2);
-	VERIF_COVER(ret != 0 && g_pool_created && g_pool_destroyed);
-	VERIF_COVER(ret != 0 && g_proc_allocs == 0);
-	VERIF_COVER(ret != 0 && g_ht_created == false && g_worker_allocs == 2);
+#if FAIL_AT == 0
+	VERIF_COVER(ret == 0);
+#else
+	/* either this position exists and fails, or the run has fewer fallible
+	 * calls than FAIL_AT and succeeds */
+	VERIF_COVER(ret != 0 || g_fallible_calls < FAIL_AT);
+#endif
 }
